@@ -304,16 +304,114 @@ def history(rng, k, n, nested=0.5, invalid=0.03):
     return ops
 
 
+
+# ----------------------------------------------------------------------------------------------
+# the copy-on-write case splits of the proofs (VariantRefine.open_mut_ok, VariantStep.mcop_ok / mupd_ok):
+#   payload of the target  x  who else holds it  x  root / nested position (outer and inner sharing)
+#   x  which operation opens it for writing (accessor kind matching or not, mutation, reassignment)
+# ----------------------------------------------------------------------------------------------
+PAYLOADS = {
+    'null': [],
+    'int': ['sets %v - i5'],
+    'dbl': ['sets %v - d3_-1'],
+    'str': ['setstr %v - 6162'],
+    'list': ['setnode %v - l -:2,-:2'],
+    'array': ['setnode %v - a -:2,-:2'],
+    'map': ['setnode %v - m 61:2,62:2'],
+    'list2': ['setnode %v - l -:2', 'setnode %v - l -:%v,-:2', 'cont %v - l ins:9999:- %v l#0'],   # [[z],z,[z]] sharing its own child block
+}
+SHARERS = {
+    'none': [],
+    'copy': ['copynew 1 0'],
+    'assign': ['assign 1 - 0 -'],
+    'held-twice': ['setnode 1 - l -:0,-:0'],
+    'held-in-map': ['setnode 1 - m 6b:0', 'setnode 1 - a -:1'],
+}
+# nested position: variable 0 = [P, z]; P may also be held by variable 1 (inner shared) and the outer list may be shared too
+NESTINGS = {
+    'root': None,
+    'in-ex-out-ex': ['setnode 0 - l -:1,-:2', 'clear 1 -'],
+    'in-sh-out-ex': ['setnode 0 - l -:1,-:2'],
+    'in-ex-out-sh': ['setnode 0 - l -:1,-:2', 'copynew 1 0'],
+    'in-sh-out-sh': ['setnode 0 - l -:1,-:2', 'setnode 3 - l -:0,-:1'],
+}
+
+
+def write_ops(tp):
+    ops = []
+    for kd in 'lam':
+        ops += ['cont 0 %s %s touch 2 -' % (tp, kd), 'cont 0 %s %s ins:9999:6b 2 -' % (tp, kd), 'cont 0 %s %s ins:0:61 2 -' % (tp, kd),
+                'cont 0 %s %s rem:0 2 -' % (tp, kd), 'cont 0 %s %s rem:1 2 -' % (tp, kd), 'cont 0 %s %s clr 2 -' % (tp, kd),
+                'cont 0 %s %s ins:9999:6b 1 -' % (tp, kd)]
+    ops += ['cont 0 %s m remkey:61 2 -' % tp, 'cont 0 %s m remkey:7a 2 -' % tp]
+    ops += ['strtouch 0 %s' % tp, 'strapp 0 %s 78' % tp, 'strapp 0 %s -' % tp]
+    ops += ['sets 0 %s %s' % (tp, a) for a in ['n', 'b1', 'i7', 'u7', 'I7', 'U7', 'd1_0']]
+    ops += ['setstr 0 %s 71' % tp, 'setstr 0 %s -' % tp, 'setnode 0 %s l -:2' % tp, 'setnode 0 %s m 61:0' % tp, 'setnode 0 %s a -' % tp,
+            'clear 0 %s' % tp, 'assign 0 %s 2 -' % tp, 'assign 0 %s 1 -' % tp, 'assign 1 - 0 %s' % tp]
+    if tp == '-':
+        ops += ['assign 0 - 0 l#0', 'assign 0 - 0 m=61', 'assign 0 - 0 a#1', 'swap 0 1', 'swap 0 0', 'copynew 0 2', 'copynew 0 1',
+                'sets 0 l#0 i7', 'strapp 0 l#1 78', 'strapp 0 m=62 78', 'strapp 0 a#0 78', 'cont 0 l#0 l ins:0:- 0 l#1']
+    else:
+        ops += ['assign 0 - 0 %s' % tp, 'assign 0 %s 0 l#1' % tp, 'sets 0 %s/l#0 i7' % tp, 'strapp 0 %s/l#0 78' % tp,
+                'strapp 0 %s/m=61 78' % tp, 'cont 0 %s/l#0 l ins:0:- 2 -' % tp]
+    return ops
+
+
+PROBES = ['sets 2 - i9', 'strapp 1 - 79', 'clear 1 -', 'cont 1 - l ins:0:- 2 -', 'clear 0 -']
+
+
+def cowsplit_cases():
+    cases = []
+    for pn, pl in PAYLOADS.items():
+        for nn, nest in NESTINGS.items():
+            if nest is None:
+                for sn, sh in SHARERS.items():
+                    pre = ['setstr 2 - 7a'] + [l.replace('%v', '0') for l in pl] + sh
+                    for w in write_ops('-'):
+                        cases.append(['@4'] + pre + [w] + PROBES)
+            else:
+                pre = ['setstr 2 - 7a'] + [l.replace('%v', '1') for l in pl] + nest
+                for w in write_ops('l#0'):
+                    cases.append(['@4'] + pre + [w] + PROBES)
+    return cases
+
+
 class C07(Check):
     id = 'C07'
     comp = 'Variant'
     extracted = ['coq/Variant/model.mli', 'coq/Variant/model.ml', 'ocaml/zconv.ml', 'ocaml/variant_driver.ml']
     harness_sources = ['harness/variant.cpp']
-    level_text = ''
-    level_note = ''
-    technique = ''
-    rule = ''
-    assumptions = []
+    level_text = ('Theorems in Coq, for every history of assignments, copies, swaps, clears and path mutations through the mutable '
+                  'accessors over any number of Variant variables and arbitrary nested value trees: the model of the lazy-copy '
+                  'representation (heap of reference-counted blocks with nested handles) never follows a handle to a released block, keeps '
+                  'ref = number of handles (variables + handles inside live payloads), writes a payload in place only when it has no other '
+                  'referrer, frees everything when the variables die, and refines the value model: after every operation every variable '
+                  'reports (getType, to*, ==, deep dump) exactly what VariantSpec says, an operation on x changes no other variable, a copy '
+                  'compares equal to its source; laws of the coercions (in-range conversions preserve the value, C wrap-around, '
+                  'int<->double exact, decimal strings parse back). The model is tied to the code by running the extracted model, the '
+                  'extracted spec and the ASan/UBSan/LSan build of the working tree on the same histories; observations, the == matrix, '
+                  'all coercions and the canonical heap shape (sharing structure and every reference count) are compared after every op.')
+    level_note = ('Trusted: Coq kernel, VariantSpec.v (value model and reference coercions), extraction + OCaml driver, harness, generators. '
+                  'Doubles are exact dyadic rationals (no NaN/inf/-0); float->integer casts that are undefined in C++ are not observed. '
+                  'Validated by the correspondence run only: that the reference strtol/strtoul/strtod/%f/int64->double/String::toBool '
+                  'functions of VariantSpec.v are what glibc and String do; that an in-place write of an exclusively owned payload equals '
+                  'the model\'s retire-and-reallocate (the heap shape dump compares sharing and counts, not addresses). '
+                  'Excluded by hypothesis (skipped by harness, model and spec): operations that store into a payload a Variant containing '
+                  'that same payload (v.toList().append(v)); the code then builds a reference cycle, the model is value-semantic there. '
+                  'Sequential use only (Atomic increments/decrements are plain arithmetic in the model).')
+    technique = ('machine-checked proof in Coq (invariant + refinement by induction over histories) about a hand-written Gallina model of '
+                 'the copy-on-write heap; model tied to the code by an extracted-model / extracted-spec / implementation correspondence check')
+    rule = ('cases = histories over 2-4 Variant variables in the op language of VariantSpec.op (set scalar/string/container at a path, '
+            'assign/copy/swap/clear, mutable accessor + insert/remove/clear at a path, toString + append); streams: every alternative '
+            'against others for coercions and ==; the copy-on-write case split (payload kind x sharer x root/nested with inner/outer '
+            'sharing x write operation, accessor kind matching or not, followed by probes that mutate/release the sharers); random '
+            'root-level, nested and malformed histories; all histories of length <= 3 over a 22-op alphabet (thorough). A case is '
+            'non-trivial when some payload is shared (ref >= 2) at some point or at least two different alternatives are assigned; '
+            'distinct = distinct op text')
+    assumptions = ['doubles restricted to finite exact dyadic rationals m*2^e (NaN, infinities, -0 excluded by the property)',
+                   'float -> integer conversions whose truncated value is not representable are undefined in C++ and not observed',
+                   'no operation stores into a payload a Variant that contains that payload (self_containing = false)',
+                   'sequential histories (no concurrent access to one payload)']
 
     def run_impl(self, cases, tag='impl'):
         from vf import run_exe_on_cases, BUILD
@@ -343,6 +441,12 @@ class C07(Check):
             cases.append(['@2', '%s 0 - %s' % a, '%s 1 - %s' % b])
         out.append(Stream('coerce', cases, exhaustive=thorough,
                           note='every alternative (boundary scalars, %d strings) against %s' % (len(strs), 'every other' if thorough else '3 random others')))
+        # 1b. the copy-on-write case split (all of it in the thorough tier, a third in the quick tier)
+        cw = cowsplit_cases()
+        if not thorough:
+            cw = [c for c in cw if rng.random() < 0.34]
+        out.append(Stream('cowsplit', cw, exhaustive=thorough,
+                          note='payload kind x sharer x root/nested (inner/outer shared) x write operation, then probes on the sharers'))
         # 2. copy-on-write histories, one level
         cases = [['@3'] + history(rng, 3, rng.randrange(4, 16), nested=0.15) for _ in range(1500 if thorough else 250)]
         out.append(Stream('cow1', cases, note='histories over 3 variables, mostly root-level'))
